@@ -1632,7 +1632,15 @@ type ProposalMessage struct {
 
 // ValidateBasic performs basic validation.
 func (m *ProposalMessage) ValidateBasic() error {
-	return m.Proposal.ValidateBasic()
+	if err := m.Proposal.ValidateBasic(); err != nil {
+		return err
+	}
+	// The reactor sizes the peer's block-part bit array from this field before
+	// the proposal's signature is looked at.
+	if total := m.Proposal.BlockID.PartSetHeader.Total; total > types.MaxBlockPartsCount {
+		return fmt.Errorf("proposal part set is too big: %d parts, max: %d", total, types.MaxBlockPartsCount)
+	}
+	return nil
 }
 
 // String returns a string representation.
